@@ -354,11 +354,11 @@ Qed.
     normal end the same variables. *)
 Theorem check_program_sound k dims p code : check_program k dims p code = true ->
   forall fuel,
-  match Sem.exec_program num_text is_negative fuel p (mk_state (init_env dims) dev0) with
+  match Sem.exec_program num_text is_negative fuel p (mk_state (init_env dims) io0) with
   | Done st' => exists n s', (forall m, n <= m -> Machine.run num_text is_negative m code m0 = MHalted s') /\
-                             mvars s' = vars st' /\ mscreen s' = screen st'
-  | Failed x q st' => exists n s', (forall m, n <= m -> Machine.run num_text is_negative m code m0 = MError x q s') /\ mscreen s' = screen st'
-  | StepZero q st' => exists n s', (forall m, n <= m -> Machine.run num_text is_negative m code m0 = MStepZero q s') /\ mscreen s' = screen st'
+                             mvars s' = vars st' /\ of_mio (mscreen s') = screen st'
+  | Failed x q st' => exists n s', (forall m, n <= m -> Machine.run num_text is_negative m code m0 = MError x q s') /\ of_mio (mscreen s') = screen st'
+  | StepZero q st' => exists n s', (forall m, n <= m -> Machine.run num_text is_negative m code m0 = MStepZero q s') /\ of_mio (mscreen s') = screen st'
   | OutOfFuel => True
   end.
 Proof.
@@ -367,14 +367,14 @@ Proof.
   destruct (env_eq_dec (dims_env_m dims []) (init_env dims)) as [Eenv|]; [|discriminate].
   destruct (Validate.check_block k code p (length (dims_code dims))) as [len|] eqn:Eb; [|discriminate].
   apply instr_at_nth in Hb. apply slice_is_code_at in Hd.
-  destruct (run_dims code dims 0 regs0 [] [] [] [] dev0 Hd) as [r1 Hn]. change (mk_m 0 [regs0] [] [] [] dev0 false) with m0 in Hn.
+  destruct (run_dims code dims 0 regs0 [] [] [] [] (to_mio io0) Hd) as [r1 Hn]. change (mk_m 0 [regs0] [] [] [] (to_mio io0) false) with m0 in Hn.
   rewrite Eenv in Hn. cbn [Nat.add] in Hn.
   set (n0 := length (dims_code dims)) in *.
-  pose proof (check_block_sound k code p n0 len Eb fuel (mk_state (init_env dims) dev0) r1 [] [] []) as S.
+  pose proof (check_block_sound k code p n0 len Eb fuel (mk_state (init_env dims) io0) r1 [] [] []) as S.
   rewrite exec_program_blockf.
-  change (mk_m n0 [r1] [] [] (init_env dims) dev0 false) with (boundary n0 r1 [] [] [] (mk_state (init_env dims) dev0)) in Hn.
-  destruct (blockf fuel p (mk_state (init_env dims) dev0)) as [st'|x q st'|q st'|].
-  - destruct S as (n & r2 & Hs). exists (n0 + n + 1), (boundary (n0 + len) r2 [] [] [] st'). split; [|split; reflexivity].
+  change (mk_m n0 [r1] [] [] (init_env dims) (to_mio io0) false) with (boundary n0 r1 [] [] [] (mk_state (init_env dims) io0)) in Hn.
+  destruct (blockf fuel p (mk_state (init_env dims) io0)) as [st'|x q st'|q st'|].
+  - destruct S as (n & r2 & Hs). exists (n0 + n + 1), (boundary (n0 + len) r2 [] [] [] st'). split; [|split; [reflexivity|apply of_to_mio]].
     intros m Hm. apply (run_stepn_stop num_text is_negative (n0 + n + 1)); [|exact I|exact Hm].
     rewrite (stepn_add _ _ (n0 + n) 1), (stepn_add _ _ n0 n), Hn, Hs. rewrite stepn_one. unfold Machine.step, boundary. cbn [Machine.pc].
     rewrite Hb. reflexivity.
